@@ -1,3 +1,87 @@
 package c03
 
-func fixedCases() []Case { return nil }
+import (
+	"os"
+
+	"wzverif/internal/gen"
+	"wzverif/internal/ops"
+)
+
+func op(k string) ops.Op { return ops.Op{K: k} }
+
+// fixedCases are hand-written documents executed before the generated search and judged by the same oracle:
+// they pin the features the statement names (every paragraph setter, run formats, edge whitespace, merges,
+// nested tables to depth 3, inline and floating pictures in every wrap mode, section settings) whatever the seed.
+func fixedCases() []Case {
+	if os.Getenv("C03_NOFIXED") == "1" { // sensitivity measurements of the generated search alone
+		return nil
+	}
+	img := &gen.Img{Fmt: "png", W: 5, H: 4, Pat: 11, Name: "a.png"}
+	jpg := &gen.Img{Fmt: "jpeg", W: 9, H: 3, Pat: 12, Name: "b.jpg"}
+	full := &ops.Fmt{Bold: true, Italic: true, Underline: true, Strike: true, Size: 14, Color: "#1A2B3C", Font: "宋体", Highlight: "yellow"}
+	var all []Case
+
+	// 1. every paragraph setter on its own paragraph, run formats, edge whitespace
+	c := Case{Cycles: 3}
+	texts := []string{" leading", "trailing ", "\tTab\tinside\t", "line1\nline2", "  ", "中文 ñ 😀 &<>\"'", "", "a\r\nb"}
+	for _, s := range texts {
+		c.Ops = append(c.Ops, ops.Op{K: "para", S: []string{s}})
+	}
+	c.Ops = append(c.Ops,
+		ops.Op{K: "align", I: []int{0, 1}}, ops.Op{K: "align", I: []int{1, 2}}, ops.Op{K: "align", I: []int{2, 3}}, ops.Op{K: "align", I: []int{3, 0}},
+		ops.Op{K: "spacing", I: []int{1, 12, 6, 24}, F: []float64{1.5}},
+		ops.Op{K: "indent", I: []int{2}, F: []float64{-0.5, 1, 0.25}},
+		ops.Op{K: "keepnext", I: []int{3}, B: []bool{true}}, ops.Op{K: "keeplines", I: []int{3}, B: []bool{true}},
+		ops.Op{K: "pbb", I: []int{4}, B: []bool{true}}, ops.Op{K: "widow", I: []int{4}, B: []bool{false}}, ops.Op{K: "widow", I: []int{5}, B: []bool{true}},
+		ops.Op{K: "outline", I: []int{5, 3}}, ops.Op{K: "snap", I: []int{6}, B: []bool{false}}, ops.Op{K: "pstyle", I: []int{6}, S: []string{"Quote"}},
+		ops.Op{K: "pborder", I: []int{7, 12, 1}, S: []string{"double", "0000FF"}, B: []bool{true, true, true, true}},
+		ops.Op{K: "hrule", I: []int{0, 18}, S: []string{"single", "808080"}},
+		ops.Op{K: "pformat", I: []int{1, 2, 24, 12, 0, 0}, F: []float64{2, 0.5, 0, 0}, B: []bool{true, false, true, true, true, false}, S: []string{"Heading1"}},
+		ops.Op{K: "addtext", I: []int{0}, S: []string{" x "}, Fmt: full},
+		ops.Op{K: "ppagebreak", I: []int{0}},
+		ops.Op{K: "addtext", I: []int{0}, S: []string{"after break"}, Fmt: &ops.Fmt{FontName: "Arial"}},
+		ops.Op{K: "pbold", I: []int{1}, B: []bool{true}}, ops.Op{K: "pitalic", I: []int{1}, B: []bool{true}}, ops.Op{K: "psize", I: []int{2, 18}},
+		ops.Op{K: "pcolor", I: []int{2}, S: []string{"#FF00FF"}}, ops.Op{K: "phighlight", I: []int{3}, S: []string{"cyan"}}, ops.Op{K: "pfont", I: []int{3}, S: []string{"Times New Roman"}},
+		ops.Op{K: "punderline", I: []int{4}, B: []bool{true}}, ops.Op{K: "pstrike", I: []int{4}, B: []bool{true}},
+		ops.Op{K: "heading", S: []string{"Heading"}, I: []int{2}}, op("pagebreak"),
+		ops.Op{K: "listitem", S: []string{"item"}, I: []int{1, 0, 1, 0}}, ops.Op{K: "bullet", S: []string{"dot"}, I: []int{1, 2}},
+		ops.Op{K: "margins", F: []float64{20, 15, 20, 15}}, ops.Op{K: "orient", B: []bool{true}}, ops.Op{K: "docgrid", I: []int{1, 400, 0}})
+	all = append(all, c)
+
+	// 2. tables: merges of every kind, row heights, header rows, cell formats, extra cell paragraphs, nesting to depth 3
+	c = Case{Cycles: 4, File: true}
+	c.Ops = append(c.Ops,
+		ops.Op{K: "table", I: []int{4, 4, 8000}, Grid: [][]string{{"a", " b", "c ", "d"}, {"e", "f"}, {"", "\t"}}},
+		ops.Op{K: "mergeh", I: []int{0, 0, 1, 2}}, ops.Op{K: "mergev", I: []int{0, 1, 3, 0}}, ops.Op{K: "merger", I: []int{0, 2, 3, 2, 3}},
+		ops.Op{K: "rowheight", I: []int{0, 0, 30}, S: []string{"exact"}}, ops.Op{K: "rowheight", I: []int{0, 1, 20}, S: []string{"atLeast"}},
+		ops.Op{K: "rowheader", I: []int{0, 0}, B: []bool{true}}, ops.Op{K: "rowkeep", I: []int{0, 1}, B: []bool{true}},
+		ops.Op{K: "cellfmt", I: []int{0, 1, 1, 5}, S: []string{"right", "bottom", "FFFF00"}, Fmt: full},
+		ops.Op{K: "celldir", I: []int{0, 1, 2, 1}}, ops.Op{K: "cellborders", I: []int{0, 1, 1, 8, 0}, S: []string{"dashed", "FF0000"}, B: []bool{true, true, true, true, true, true}},
+		ops.Op{K: "cellshading", I: []int{0, 1, 3}, S: []string{"pct25", "000000", "EEEEEE"}},
+		ops.Op{K: "cellpara", I: []int{0, 1, 1}, S: []string{" second paragraph "}}, ops.Op{K: "cellfpara", I: []int{0, 1, 1}, S: []string{"third"}, Fmt: full},
+		ops.Op{K: "celladdtext", I: []int{0, 1, 1}, S: []string{" more"}, Fmt: &ops.Fmt{Italic: true}},
+		ops.Op{K: "celllist", I: []int{0, 1, 2, 1, 0}, S: []string{"one", "two"}},
+		ops.Op{K: "tblborders", I: []int{0, 6, 0}, S: []string{"double", "00FF00"}}, ops.Op{K: "tblshading", I: []int{0}, S: []string{"clear", "auto", "F0F0F0"}},
+		ops.Op{K: "tblalign", I: []int{0, 2}}, ops.Op{K: "tblstyle", I: []int{0}, S: []string{"TableGrid", ""}, B: []bool{true, true}},
+		ops.Op{K: "nestedh", I: []int{0, 1, 1, 2, 2, 3000}, Grid: [][]string{{"n1", " n2 "}, {"n3"}}},
+		ops.Op{K: "nestedh", I: []int{1, 0, 0, 1, 2, 1500}, Grid: [][]string{{"d2", "d2b"}}},
+		ops.Op{K: "nestedh", I: []int{2, 0, 1, 1, 1, 700}, Grid: [][]string{{"d3"}}},
+		ops.Op{K: "mergeh", I: []int{1, 1, 0, 1}}, ops.Op{K: "celltext", I: []int{2, 0, 0}, S: []string{" deep "}},
+		ops.Op{K: "cellimg", I: []int{1, 0, 1}, Img: img, F: []float64{10}},
+		ops.Op{K: "para", S: []string{"after table"}})
+	all = append(all, c)
+
+	// 3. pictures: inline with size/alt/title, floating left/right in every wrap mode with offsets
+	c = Case{Cycles: 2}
+	c.Ops = append(c.Ops, ops.Op{K: "para", S: []string{"pictures"}},
+		ops.Op{K: "image", Img: img, I: []int{2, 0, 2, 0}, F: []float64{20, 10}, S: []string{"", "alt <text>", "title & more"}},
+		ops.Op{K: "image", Img: jpg, I: []int{0, 0, 0, 0}, F: []float64{0, 0}, S: []string{"", "", ""}})
+	for wrap := 1; wrap <= 4; wrap++ {
+		c.Ops = append(c.Ops, ops.Op{K: "imagefloat", Img: img, I: []int{3, wrap%2 + 1, 0, wrap}, F: []float64{30, 0, float64(wrap) * 2.5, 0}, S: []string{"", "a", "t"}})
+	}
+	c.Ops = append(c.Ops, ops.Op{K: "imagefloat", Img: jpg, I: []int{0, 2, 0, 0}, F: []float64{0, 0, 0, 7}, S: []string{"", "", ""}},
+		ops.Op{K: "imgalign", I: []int{0, 1}}, ops.Op{K: "header", I: []int{0}, S: []string{"head"}}, ops.Op{K: "difffirst", B: []bool{true}},
+		ops.Op{K: "custompage", F: []float64{150, 200}}, ops.Op{K: "hfdist", F: []float64{10, 12}}, ops.Op{K: "gutter", F: []float64{5}})
+	all = append(all, c)
+	return all
+}
